@@ -16,9 +16,12 @@ import (
 	"github.com/bandprotocol/chain/v3/pkg/bandrng"
 	"github.com/bandprotocol/chain/v3/pkg/tss"
 	bandtesting "github.com/bandprotocol/chain/v3/testing"
+	bandtsstypes "github.com/bandprotocol/chain/v3/x/bandtss/types"
+	tsskeeper "github.com/bandprotocol/chain/v3/x/tss/keeper"
 	tsstypes "github.com/bandprotocol/chain/v3/x/tss/types"
 
 	"verifharness/internal/fx"
+	"verifharness/internal/tssfx"
 )
 
 type seedT struct {
@@ -128,7 +131,10 @@ func pureCase(tr *fx.Trace, r *fx.Rng) {
 	tries := r.PickInt(1, 1, 2, 3, 5, 10)
 	{
 		var res []int
-		p := fx.Try(func() error { res = bandrng.ChooseSomeMaxWeight(s.rng(), append([]uint64{}, ws...), cnt, tries); return nil })
+		p := fx.Try(func() error {
+			res = bandrng.ChooseSomeMaxWeight(s.rng(), append([]uint64{}, ws...), cnt, tries)
+			return nil
+		})
 		if p != "" {
 			res = nil
 		}
@@ -270,6 +276,59 @@ func membersCase(app *fx.App, tr *fx.Trace, r *fx.Rng) {
 	}
 }
 
+// signingCase: the committee of a REAL signing.  A DKG-built group gets nonces from some members, several signings are
+// requested through the tss keeper (so that signing ids differ from the group id and from each other) and the members
+// assigned to each signing's first attempt are read back.  The line is a `randomMembers` line whose nonce is the one the
+// property names: signing id ‖ attempt (big-endian 64-bit each).
+func signingCase(app *fx.App, tr *fx.Trace, r *fx.Rng, caseNo int) {
+	ctx, _ := app.Ctx.CacheContext()
+	tr.Reset(nil)
+	chain := r.PickStr("BANDCHAIN", "band-x")
+	ctx = ctx.WithChainID(chain)
+	n := r.Range(2, 5)
+	th := r.Range(1, n-1)
+	g, err := tssfx.NewGroupWith(app, ctx, tssfx.NewAccounts(int64(caseNo)*17+3, n), uint64(th), bandtsstypes.ModuleName)
+	fx.Must(err)
+	tk := app.TSSKeeper
+	tms := tsskeeper.NewMsgServerImpl(tk)
+	seed := r.Bytes(32)
+	app.RollingseedKeeper.SetRollingSeed(ctx, seed)
+	for k := 0; k < 3; k++ {
+		var ms [][]any
+		for id := 1; id <= n; id++ {
+			if r.Chance(3, 4) {
+				_, err := tms.SubmitDEs(ctx, &tsstypes.MsgSubmitDEs{DEs: g.NewDEs(id, 1), Sender: g.Addr(id).String()})
+				fx.Must(err)
+			}
+			m, err := tk.GetMember(ctx, g.GroupID, tss.MemberID(id))
+			fx.Must(err)
+			ms = append(ms, []any{id, m.IsActive, tk.HasDE(ctx, g.Addr(id))})
+		}
+		content := tsstypes.NewTextSignatureOrder(r.Bytes(r.Range(1, 20)))
+		orig := tsstypes.NewDirectOriginator(ctx.ChainID(), g.Addr(1).String(), "")
+		var sid tss.SigningID
+		errS := fx.Atomically(ctx, func(c sdk.Context) error {
+			var e error
+			sid, e = tk.RequestSigning(c, g.GroupID, &orig, content)
+			return e
+		})
+		out := []any{}
+		want := tk.GetSigningCount(ctx)
+		if errS == "" {
+			sa, err := tk.GetSigningAttempt(ctx, sid, 1)
+			fx.Must(err)
+			for _, am := range sa.AssignedMembers {
+				out = append(out, uint64(am.MemberID))
+			}
+		} else {
+			want++ // the id the failed request would have taken
+		}
+		nonce := append(sdk.Uint64ToBigEndian(want), sdk.Uint64ToBigEndian(1)...)
+		tr.Op(fx.M{"op": "randomMembers", "members": ms, "threshold": th, "signing": want,
+			"seed": hex.EncodeToString(seed), "nonce": hex.EncodeToString(nonce), "chain": chain, "out": fx.M{"err": errS, "res": out}})
+	}
+}
+
 func main() {
 	a := fx.ParseArgs()
 	app := fx.NewApp()
@@ -285,7 +344,11 @@ func main() {
 		case 4:
 			validatorsCase(app, tr, r.Fork())
 		case 5:
-			membersCase(app, tr, r.Fork())
+			if i%12 == 11 {
+				signingCase(app, tr, r.Fork(), i)
+			} else {
+				membersCase(app, tr, r.Fork())
+			}
 		default:
 			pureCase(tr, r.Fork())
 		}
